@@ -13,6 +13,9 @@ type fieldMasksNode struct {
 	globalProcess bool
 	globalIgnore  bool
 	children      map[string]*fieldMasksNode
+	// rest is the node for the fields below this one that no list names:
+	// the same flags, no children
+	rest *fieldMasksNode
 }
 
 func newFieldMasksNode() *fieldMasksNode {
@@ -35,6 +38,37 @@ func addFieldsToTree(root *fieldMasksNode, fieldPaths [][]string, cb func(*field
 			}
 			curNode = nextNode
 		}
+	}
+}
+
+// inheritFlags makes every node carry the flags of its ancestors: a listed field covers all
+// its nested fields even when another list names a longer path through it.
+func (n *fieldMasksNode) inheritFlags(parent *fieldMasksNode) {
+	if parent != nil {
+		for i := range parent.processMasks {
+			if n.processMasks == nil {
+				n.processMasks = make(map[int]struct{})
+			}
+			n.processMasks[i] = struct{}{}
+		}
+		for i := range parent.ignoreMasks {
+			if n.ignoreMasks == nil {
+				n.ignoreMasks = make(map[int]struct{})
+			}
+			n.ignoreMasks[i] = struct{}{}
+		}
+		n.globalProcess = n.globalProcess || parent.globalProcess
+		n.globalIgnore = n.globalIgnore || parent.globalIgnore
+	}
+	n.rest = &fieldMasksNode{
+		processMasks:  n.processMasks,
+		ignoreMasks:   n.ignoreMasks,
+		globalProcess: n.globalProcess,
+		globalIgnore:  n.globalIgnore,
+		children:      map[string]*fieldMasksNode{},
+	}
+	for _, child := range n.children {
+		child.inheritFlags(n)
 	}
 }
 
@@ -123,8 +157,8 @@ func (p *Plugin) gatherFieldMasksTree() error {
 	}
 
 	if p.hasProcessOrIgnoreFields {
+		root.inheritFlags(nil)
 		p.fieldMasksRoot = root
-		p.emptyFMNode = newFieldMasksNode()
 	}
 
 	return nil
